@@ -277,7 +277,11 @@ class Sites:
                 if not f["init"]:
                     self.out.append((path, "init-false"))
                 if (f.get("ser") or ("",))[0] == "fn":
-                    continue        # the member is the (constant, finding-free) output of the user's function
+                    # the member is the (constant, finding-free) output of the user's function -- except that None of a
+                    # nullable field is not passed to the function while the schema has no null alternative (known finding)
+                    if getattr(v, f["name"]) is None and field_nullable(f, e2):
+                        self.out.append((path + (key,), "ovr-nullable"))
+                    continue
                 fv = getattr(v, f["name"])
                 if cfg.get("omit_none") and fv is None and field_nullable(f, e2):
                     continue        # the key is dropped (and, since /repo a5aab21, not required)
@@ -335,7 +339,7 @@ def field_nullable(f, env=None) -> bool:
 
 
 VALIDATOR_OF = {"flag": {"enum", "const"}, "set-collision": {"uniqueItems"}, "tz": {"pattern"},
-                "init-false": {"additionalProperties"}, "nt-ovc": {"type"}}
+                "init-false": {"additionalProperties"}, "nt-ovc": {"type"}, "ovr-nullable": {"type"}}
 
 
 def explain(err, sites) -> set:
@@ -766,7 +770,7 @@ def model_part(ctx: vlib.Ctx):
     br = ctx.theorems("props/C06_schema.vo", ["C06_sound_partial", "C06_tz_pattern", "C06_required_iff_no_default", "C06_satisfiable",
                                               "C06_sound_full_refuted", "C06_flag_refuted", "C06_intkey_refuted", "C06_shared_defs_refuted",
                                               "C06_set_collision_refuted", "C06_init_false_refuted",
-                                              "C06_nt_override_container_refuted",
+                                              "C06_nt_override_container_refuted", "C06_overridden_nullable_refuted",
                                               "C06_nt_mode_schema", "C06_nt_mode_pack"], kernels=["K6", "K6N"])
     r = ctx.rng
     want = ctx.budget(150, 1000)
